@@ -37,7 +37,7 @@ CASE_TIMEOUT = {"quick": 300, "thorough": 900}
 
 
 def cases(tier, seed):
-    n = base.n_cases(72, 720, tier)
+    n = base.n_cases(216, 1500, tier)
     out = []
     for i in range(n):
         rng = gen.rng_for(seed, ID, i)
